@@ -354,8 +354,44 @@ func (k *K) merkleRule(id string) {
 		k.r.Check(len(chained) > 0 && ok, id+"/chained", "MUST-PASS", fnShort(vm), k.w.Pos(vm.Fn.Pos()),
 			"MerkleProof.VerifyMembership succeeds only through verifyChainedMembershipProof",
 			"MerkleProof.VerifyMembership can succeed without verifyChainedMembershipProof — offending return at "+retPos(vm, ret))
+		// argument validation: one key per proof spec, one proof per spec, non-empty value
+		var vas []*ssa.Call
+		for _, c := range callsNamed(vm, "validateVerificationArgs") {
+			vas = append(vas, c)
+		}
+		okVA, retVA := k.successPassesCall(vm, vas)
+		k.r.Check(len(vas) > 0 && okVA, id+"/args-validated", "MUST-PASS", fnShort(vm), k.w.Pos(vm.Fn.Pos()), "success passes validateVerificationArgs(specs, root)", "VerifyMembership can succeed without validateVerificationArgs — at "+retPos(vm, retVA))
+		okLen, retLen := k.successRequires(vm, func(f Fact) bool {
+			if f.Op != "==" {
+				return false
+			}
+			a, b := f.L.String(), f.R.String()
+			specs := "builtin.len(" + P(1).String() + ")"
+			isKP := func(s string) bool { return strings.HasPrefix(s, "builtin.len(") && strings.Contains(s, "KeyPath") }
+			return (a == specs && isKP(b)) || (b == specs && isKP(a))
+		}, 0)
+		k.r.Check(okLen, id+"/path-length", "MUST-PASS", fnShort(vm), k.w.Pos(vm.Fn.Pos()), "success requires len(path.KeyPath) == len(specs)", "VerifyMembership can succeed with a key path whose length differs from the number of proof specs — at "+retPos(vm, retLen))
+		okVal, retVal := k.successRequires(vm, func(f Fact) bool {
+			l := "builtin.len(" + P(4).String() + ")"
+			return (f.Op == "!=" && ((f.L.String() == l && f.R.String() == "const(0)") || (f.R.String() == l && f.L.String() == "const(0)"))) || (f.Op == "<" && f.L.String() == "const(0)" && f.R.String() == l)
+		}, 0)
+		k.r.Check(okVal, id+"/value-nonempty", "MUST-PASS", fnShort(vm), k.w.Pos(vm.Fn.Pos()), "success requires a non-empty value", "VerifyMembership can succeed for an empty value — at "+retPos(vm, retVal))
+		if va := k.method(pCommitment, "MerkleProof", "validateVerificationArgs"); va != nil {
+			okN, retN := k.successRequires(va, func(f Fact) bool {
+				if f.Op != "==" {
+					return false
+				}
+				a, b := f.L.String(), f.R.String()
+				pl, sl := "builtin.len("+P(0).String()+".Proofs)", "builtin.len("+P(1).String()+")"
+				return (a == pl && b == sl) || (a == sl && b == pl)
+			}, 1)
+			k.r.Check(okN, id+"/proofs-per-spec", "MUST-PASS", fnShort(va), k.w.Pos(va.Fn.Pos()), "success requires len(proof.Proofs) == len(specs)", "validateVerificationArgs can succeed when the number of proofs differs from the number of specs (a shorter chain would skip a store level) — at "+retPos(va, retN))
+		}
 		for _, c := range chained {
 			a := termsOf(vm, c.Call.Args) // root.GetHash(), specs, proofs, keys, value, 0
+			if len(a) >= 6 {
+				k.r.Check(a[5] == "const(0)", id+"/chained-index", "BIND", fnShort(vm), vm.InstrPos(c), "chain verified from index 0", "chained verification starts at index "+a[5]+" instead of 0 (leading proofs would be skipped)")
+			}
 			if len(a) >= 5 {
 				k.r.Check(strings.Contains(a[0], P(2).String()), id+"/chained-root", "BIND", fnShort(vm), vm.InstrPos(c),
 					"root = root.GetHash()", "root argument is "+clip(a[0]))
